@@ -82,7 +82,8 @@ META = dict(
               "count pairs, 2 densities, 7 global wavelengths + selected table points; structure edges: all fragment "
               "multisets of size <= 3 over 9 atoms, of size 4 over 3 atoms and of size 2..3 over 4 atoms that differ "
               "only in charge or only in isotope (O, O{2-}, O[18], O[18]{2-}), all permutations x bracketings x "
-              "group multipliers {1,2} x {string, nested list, dict}, each at density= and natural_density= (ions "
+              "group multipliers {1,2} x {string, nested list, dict} + the leading-count string spelling ('0.5H4 + 0.5O2', "
+              "multipliers 2 and 0.5) of every shallow bracketing, each at density= and natural_density= (ions "
               "included); object sessions: all one-atom compounds and all pairs over the class alphabet (counts 1, 2) "
               "x up to 2 wavelengths; conversions on 40 log-spaced points; front ends: all one-atom compounds and "
               "all pairs over the class alphabet (counts 1, 2) x every route x 2 density keywords x (7 scalar calls + "
